@@ -18,6 +18,7 @@ import (
 
 type c03Scope struct {
 	n, min, L int
+	limit     uint64 // decision time limit in force (0 = 100 s)
 }
 
 func c03Alphabet(n int) []string {
@@ -37,9 +38,9 @@ func c03Alphabet(n int) []string {
 
 func c03Scopes(tier string) []c03Scope {
 	if tier == "thorough" {
-		return []c03Scope{{1, 1, 5}, {2, 1, 4}, {2, 2, 4}, {3, 1, 3}, {3, 2, 3}, {3, 3, 3}}
+		return []c03Scope{{1, 1, 5, 0}, {2, 1, 4, 0}, {2, 2, 4, 0}, {3, 1, 3, 0}, {3, 2, 3, 0}, {3, 3, 3, 0}}
 	}
-	return []c03Scope{{1, 1, 3}, {2, 1, 3}, {2, 2, 3}, {3, 2, 2}, {3, 3, 2}}
+	return []c03Scope{{1, 1, 3, 0}, {2, 1, 3, 0}, {2, 2, 3, 0}, {3, 2, 2, 0}, {3, 3, 2, 0}}
 }
 
 const c03Chunk = 48
@@ -129,6 +130,8 @@ func runC03(c *fw.Ctx) {
 		for i := 0; i < c03Chunk/2; i++ {
 			n := c.Rng.Range(1, 4)
 			sc := c03Scope{n: n, min: c.Rng.Range(1, n)}
+			// the time limit is a free uint64 parameter: also "never" spelled as a huge number
+			sc.limit = c.Rng.PickU64([]uint64{100, 100, 100, 100, 3, ^uint64(0), ^uint64(0) - 1_000_000, 1<<63 + 5, 1<<63 - 1})
 			last = c03BiasedSequence(c.Rng, n)
 			terminal += c03RunSequence(c, sc, last)
 			c.Count("sequences", 1)
@@ -182,7 +185,11 @@ func c03RunSequence(c *fw.Ctx, sc c03Scope, seq []string) int {
 	for i := 0; i < sc.n; i++ {
 		s = append(s, lab.NewAcct(i).Addr.String())
 	}
-	o.Ent = enttypes.Params{EntSigners: strings.Join(s, ","), Denom: lab.Denom, MinAccepts: uint64(sc.min), DecisionTimeLimit: 100}
+	limit := sc.limit
+	if limit == 0 {
+		limit = 100
+	}
+	o.Ent = enttypes.Params{EntSigners: strings.Join(s, ","), Denom: lab.Denom, MinAccepts: uint64(sc.min), DecisionTimeLimit: limit}
 	o.Whitelist = []int{4}
 	e := NewEnv(c, o)
 	defer e.L.Cleanup()
@@ -235,7 +242,7 @@ func c03RunSequence(c *fw.Ctx, sc c03Scope, seq []string) int {
 			e.Block(time.Second, &TxPlan{Spec: lab.TxSpec{Msgs: []sdk.Msg{&enttypes.MsgWhitelistAddress{Address: purch.Addr.String(), Signer: sg.Addr.String(), Action: act}}, Signers: []lab.Acct{sg}}, Desc: "Whitelist " + op})
 		case op[0] == 'P':
 			size, min := int(op[1]-'0'), int(op[2]-'0')
-			e.Gov(op, &enttypes.MsgUpdateParams{Authority: lab.GovAuthority(), Params: enttypes.Params{EntSigners: strings.Join(s[:size], ","), Denom: lab.Denom, MinAccepts: uint64(min), DecisionTimeLimit: 100}})
+			e.Gov(op, &enttypes.MsgUpdateParams{Authority: lab.GovAuthority(), Params: enttypes.Params{EntSigners: strings.Join(s[:size], ","), Denom: lab.Denom, MinAccepts: uint64(min), DecisionTimeLimit: limit}})
 		}
 	}
 	// two trailing blocks so that an accepted order is seen completing
@@ -284,7 +291,7 @@ func runC03Random(c *fw.Ctx) {
 			}
 			p.EntSigners = strings.Join(s, ",")
 			p.MinAccepts = uint64(r.Range(1, n))
-			p.DecisionTimeLimit = r.PickU64([]uint64{3, 15, 60, 1000})
+			p.DecisionTimeLimit = r.PickU64([]uint64{3, 15, 60, 1000, ^uint64(0), 1<<63 + 5})
 			e.Gov(fmt.Sprintf("ent signers=%d(off %d) min=%d limit=%d", n, off, p.MinAccepts, p.DecisionTimeLimit), &enttypes.MsgUpdateParams{Authority: lab.GovAuthority(), Params: p})
 			c.Count("gov_changes", 1)
 		}
